@@ -2,7 +2,7 @@
 
 use derivative::Derivative;
 use miette::SourceSpan;
-use printer::tokens::{ELSE, EQQ, GT, GTE, IF, LT, LTE, NEQ, ZERO};
+use printer::tokens::{COMMENT, ELSE, EQQ, GT, GTE, IF, LT, LTE, MINUS, NEQ, ZERO};
 use printer::*;
 
 use crate::syntax::*;
@@ -26,6 +26,20 @@ pub enum IfSort {
     Greater,
     /// `>=`
     GreaterOrEqual,
+}
+
+impl IfSort {
+    /// The symbol of the comparison with its operands swapped: `a < b` is `b > a`.
+    fn mirrored_symbol(&self) -> &'static str {
+        match self {
+            IfSort::Equal => EQQ,
+            IfSort::NotEqual => NEQ,
+            IfSort::Less => GT,
+            IfSort::LessOrEqual => GTE,
+            IfSort::Greater => LT,
+            IfSort::GreaterOrEqual => LTE,
+        }
+    }
 }
 
 impl Print for IfSort {
@@ -76,25 +90,98 @@ impl OptTyped for IfC {
     }
 }
 
+/// Whether the first token of the printed term is the literal `0`.
+fn starts_with_zero(term: &Term) -> bool {
+    match term {
+        Term::Lit(lit) => lit.lit == 0,
+        Term::Op(op) => starts_with_zero(&op.fst),
+        Term::Destructor(dtor) => starts_with_zero(&dtor.scrutinee),
+        Term::Case(case) => starts_with_zero(&case.scrutinee),
+        Term::XVar(_)
+        | Term::IfC(_)
+        | Term::PrintI64(_)
+        | Term::Let(_)
+        | Term::Call(_)
+        | Term::Constructor(_)
+        | Term::New(_)
+        | Term::Label(_)
+        | Term::Goto(_)
+        | Term::Exit(_)
+        | Term::Paren(_) => false,
+    }
+}
+
+/// Whether the last token of the printed term is the literal `0`.
+fn ends_with_zero(term: &Term) -> bool {
+    match term {
+        Term::Lit(lit) => lit.lit == 0,
+        Term::Op(op) => ends_with_zero(&op.snd),
+        Term::PrintI64(print) => ends_with_zero(&print.next),
+        Term::Let(lt) => ends_with_zero(&lt.in_term),
+        Term::Exit(exit) => ends_with_zero(&exit.arg),
+        Term::XVar(_)
+        | Term::IfC(_)
+        | Term::Call(_)
+        | Term::Constructor(_)
+        | Term::Destructor(_)
+        | Term::Case(_)
+        | Term::New(_)
+        | Term::Label(_)
+        | Term::Goto(_)
+        | Term::Paren(_) => false,
+    }
+}
+
 impl Print for IfC {
     fn print<'a>(
         &'a self,
         cfg: &printer::PrintCfg,
         alloc: &'a printer::Alloc<'a>,
     ) -> printer::Builder<'a> {
-        let snd = match self.snd {
-            None => alloc.text(ZERO),
-            Some(ref snd) => snd.print(cfg, alloc),
+        // The lexer reads a `0` next to a comparison operator as one token of the comparisons
+        // with zero (`== 0`, `0 ==`, ...), also if that `0` is the last token of the first or the
+        // first token of the second operand. Such a `0` is kept apart from the operator, so that
+        // the printed comparison is parsed back to this term.
+        let fst_ends_with_zero = ends_with_zero(&self.fst);
+        let head = alloc.keyword(IF).append(alloc.space());
+        let head = match self.snd {
+            // the form with the zero on the left: `0 == x + 0` for `x + 0 == 0`, `0 > 0` for
+            // `0 < 0`
+            None if fst_ends_with_zero => head
+                .append(alloc.text(ZERO))
+                .append(alloc.space())
+                .append(alloc.text(self.sort.mirrored_symbol()))
+                .append(alloc.space())
+                .append(self.fst.print(cfg, alloc)),
+            None => head
+                .append(self.fst.print(cfg, alloc))
+                .append(alloc.space())
+                .append(self.sort.print(cfg, alloc))
+                .append(alloc.space())
+                .append(alloc.text(ZERO)),
+            Some(ref snd) => {
+                // only a comment separates the last `0` of the first operand from the operator
+                let sep = if fst_ends_with_zero {
+                    alloc.comment(COMMENT).append(alloc.hardline())
+                } else {
+                    alloc.nil()
+                };
+                // a literal `0` at the start of the second operand is written `-0`
+                let sign = if starts_with_zero(snd) {
+                    alloc.text(MINUS)
+                } else {
+                    alloc.nil()
+                };
+                head.append(self.fst.print(cfg, alloc))
+                    .append(alloc.space())
+                    .append(sep)
+                    .append(self.sort.print(cfg, alloc))
+                    .append(alloc.space())
+                    .append(sign)
+                    .append(snd.print(cfg, alloc))
+            }
         };
-        alloc
-            .keyword(IF)
-            .append(alloc.space())
-            .append(self.fst.print(cfg, alloc))
-            .append(alloc.space())
-            .append(self.sort.print(cfg, alloc))
-            .append(alloc.space())
-            .append(snd)
-            .append(alloc.space())
+        head.append(alloc.space())
             .append(
                 alloc
                     .line()
